@@ -52,7 +52,8 @@ RefStep(ty, s, c) ==
     ELSE LET es  == RefTrans(ty)[s]
              hit == {i \in 1..Len(es) : es[i][1] <= c /\ c <= es[i][2]}
          IN  IF hit = {} THEN 0 ELSE es[CHOOSE i \in hit : TRUE][3]
-RECURSIVE RefRun(_, _, _)
-RefRun(ty, s, w) == IF w = <<>> \/ s = 0 THEN s ELSE RefRun(ty, RefStep(ty, s, Head(w)), Tail(w))
+RECURSIVE RefRunFrom(_, _, _, _)
+RefRunFrom(ty, s, w, i) == IF i > Len(w) \/ s = 0 THEN s ELSE RefRunFrom(ty, RefStep(ty, s, w[i]), w, i + 1)
+RefRun(ty, s, w) == RefRunFrom(ty, s, w, 1)
 InLang(ty, w) == RefRun(ty, 1, w) \in RefFinal(ty)
 =============================================================================
